@@ -1388,6 +1388,9 @@ def conjunctive_consumer(ctx, b, bb, t):
     fcl = closure_of_arg(ctx, b, expr_operand(b, t["args"][2])) if len(t["args"]) > 2 else None
     if fcl is None:
         return False, "fold closure not found"
+    init = strip_refs(expr_operand(b, t["args"][1]))
+    if not (init.kind == "const" and str(init[1]) in ("1", "true")):
+        return False, "the fold starts from `%s`, not `true`: two empty sequences compare unequal" % fmt_expr(init, b)
     # accumulator = first closure parameter (_2; _1 for a named function)
     acc_l = 2 if fcl.kind == "closure" else 1
     acc_used = False
@@ -1809,6 +1812,15 @@ def C13_rules(ctx, rule="K"):
                            (bx.dominates(st["bb"], bb) or bx.dominates(bb, st["bb"]))]
             ch = node_index_arg(expr_operand(bx, st["idx"]))
             okp = any(same_value_expr(ctx, bx, strip_refs(expr_operand(bx, t["args"][1])), ch) for bb, t in same_region) if ch is not None else False
+            if okp:
+                # ... on every path: nothing between the raise and the push can skip it
+                pb_ = [bb for bb, t in same_region if same_value_expr(ctx, bx, strip_refs(expr_operand(bx, t["args"][1])), ch)]
+                before = [bb for bb in pb_ if bx.dominates(bb, st["bb"]) and bb != st["bb"]]
+                lr_ = loop_region(ctx, bx, st["bb"])
+                ends = list(bx.exits()) + ([lr_["next_bb"]] if lr_ else [])
+                nxt = st["bb"]
+                if not before and not bx.all_paths_pass(nxt, pb_, ends):
+                    okp = False
             ctx.check(okp, rule + "4", "requeue|%s" % short(bx.id), swhere,
                       "whenever ranks[child] may be raised the child is (re)queued, so the raise propagates to its descendants",
                       "a raise of ranks[child] is not followed by queueing the child: descendants keep stale ranks")
